@@ -5,6 +5,7 @@
   fixed_base}.rs`.  `&mut self` becomes `StateM Composer`; a component returns the witnesses
   it allocates.  Witness *values* live in `wit`; the *layout* is `(gates, pis.map fst, wit.size)`.
 -/
+import Plonk.Generated
 import Plonk.Model.Gate
 import Plonk.Model.Jubjub
 namespace Plonk
@@ -49,6 +50,16 @@ def appendCustomGate (s : Constraint) : CM Unit := fun c =>
 
 /-- `append_gate` -/
 def appendGate (s : Constraint) : CM Unit := appendCustomGate (Constraint.arithmetic s)
+
+/-- allocate a list of witnesses, in order -/
+def appendWitnesses : List Nat → CM Unit
+  | [] => pure ()
+  | v :: vs => do let _ ← appendWitness v; appendWitnesses vs
+
+/-- append a list of custom gates, in order -/
+def appendCustomGates : List Constraint → CM Unit
+  | [] => pure ()
+  | g :: gs => do appendCustomGate g; appendCustomGates gs
 
 /-- `append_evaluated_output` -/
 def appendEvaluatedOutput (s : Constraint) : CM (Option Nat) := do
@@ -158,6 +169,16 @@ def componentSelectZero (bit value : Nat) : CM Nat :=
 def rangeSlot (base pad numQuads i : Nat) : Nat :=
   if pad ≤ i ∧ i ≤ numQuads then base + (i - pad) else ZERO
 
+/-- honest accumulator `j` (0-based from the most significant quad) of a `k`-quad check of `v` -/
+def rangeAcc (v k j : Nat) : Nat := (v / 2 ^ (2 * (k - 1 - j))) % 4 ^ (j + 1)
+
+/-- the `numGates` selected rows followed by the zeroed closing row -/
+def rangeGates (base pad numQuads numGates : Nat) : List Constraint :=
+  let slot := rangeSlot base pad numQuads
+  ((List.range numGates).map fun g => Constraint.range
+      { a := slot (4*g+3), b := slot (4*g+2), c := slot (4*g+1), d := slot (4*g) })
+  ++ [{ d := slot numQuads }]
+
 /-- `range_check_even` -/
 def rangeCheckEven (witness numBits : Nat) : CM Unit := do
   if numBits == 0 then
@@ -170,16 +191,8 @@ def rangeCheckEven (witness numBits : Nat) : CM Unit := do
     -- accumulators for i = pad..=numQuads: the top (i − pad + 1) quads of the low bits
     let base := (← get).wit.size
     let k := numQuads + 1 - pad
-    for j in [0:k] do
-      -- after quad j (from the top): value of bits [2(k−1−j), 2k) of v
-      let acc := ((v % 2 ^ 256) / 2 ^ (2 * (k - 1 - j))) % 4 ^ (j + 1)
-      let _ ← appendWitness acc
-    let slot := rangeSlot base pad numQuads
-    for g in [0:numGates] do
-      appendCustomGate (Constraint.range
-        { a := slot (4*g+3), b := slot (4*g+2), c := slot (4*g+1), d := slot (4*g) })
-    -- closing row: zeroed, D = last accumulator
-    appendCustomGate { d := slot numQuads }
+    appendWitnesses ((List.range k).map (rangeAcc v k))
+    appendCustomGates (rangeGates base pad numQuads numGates)
     if k > 0 then assertEqual (base + k - 1) witness
 
 /-- `range_check` (odd widths peel the top bit) -/
@@ -197,12 +210,13 @@ def rangeCheck (value numBits : Nat) : CM Unit := do
     assertEqual recomposed value
 
 def componentRangeBits (bits witness : Nat) : CM Unit := rangeCheck witness bits
-def componentRange (bitPairs witness : Nat) : CM Unit := rangeCheckEven witness (min (bitPairs * 2) 256)
+def componentRange (bitPairs witness : Nat) : CM Unit :=
+  rangeCheckEven witness (min (bitPairs * 2) Generated.RANGE_PAIRS_CLAMP_BITS)
 
 /-! ### truncate.rs -/
 
 def assertCanonicalTruncation (high low numBits : Nat) : CM Unit := do
-  let highBits := 255 - numBits
+  let highBits := Generated.SPLIT_TOTAL_BITS - numBits
   let rLow := recomposeBits (R - 1) 0 numBits
   let rHigh := recomposeBits (R - 1) numBits 256
   let diff ← gateAdd { ql := R - 1, a := high, qc := rHigh }
@@ -217,7 +231,7 @@ def assertCanonicalTruncation (high low numBits : Nat) : CM Unit := do
   rangeCheck guard numBits
 
 def bindTruncationSplit (input low numBits : Nat) : CM Unit := do
-  let highBits := 255 - numBits
+  let highBits := Generated.SPLIT_TOTAL_BITS - numBits
   let v ← getVal input
   let high ← appendWitness (recomposeBits v numBits 256)
   rangeCheck high highBits
@@ -341,7 +355,7 @@ def assertTorsionFreeGates (point : Pt) (q : Pt) : CM Unit := do
 def assertTorsionFreePoint (point : Pt) : CM Unit := do
   let u ← getVal point.1
   let v ← getVal point.2
-  let q := if onCurve (u, v) then edMul EIGHT_INV_RJ (u, v) else Pt.id
+  let q := if onCurve (u, v) then edMul Generated.EIGHT_INV (u, v) else Pt.id
   assertTorsionFreeGates point q
 
 def componentNegPoint (p : Pt) : CM Pt := do
@@ -370,7 +384,7 @@ def componentSelectPoint (bit : Nat) (a b : Pt) : CM Pt := do
 
 /-- `component_mul_point` -/
 def componentMulPoint (jubjub : Nat) (point : Pt) : CM Pt := do
-  let bits ← componentDecomposition 252 jubjub
+  let bits ← componentDecomposition Generated.MUL_POINT_BITS jubjub
   let rec go : List Nat → Pt → CM Pt
     | [], r => pure r
     | b :: bs, r => do
@@ -382,67 +396,59 @@ def componentMulPoint (jubjub : Nat) (point : Pt) : CM Pt := do
 
 /-! ### fixed_base.rs -/
 
-def JUBJUB_SCALAR_BITS : Nat := 252
-def FIXED_BASE_SIGNED_DIGIT_ROUNDS : Nat := 256
-def FIXED_BASE_LEADING_ZERO_ROUNDS : Nat := FIXED_BASE_SIGNED_DIGIT_ROUNDS - (JUBJUB_SCALAR_BITS + 1)
+def JUBJUB_SCALAR_BITS : Nat := Generated.JUBJUB_SCALAR_BITS
+def FIXED_BASE_LEADING_ZERO_ROUNDS : Nat := Generated.FIXED_BASE_LEADING_ZERO_ROUNDS
 
 def assertCanonicalJubjubScalar (scalar : Nat) : CM Unit := do
   rangeCheck scalar JUBJUB_SCALAR_BITS
   let dist ← gateAdd { ql := R - 1, a := scalar, qc := (RJ - 1) % R }
   rangeCheck dist JUBJUB_SCALAR_BITS
 
-/-- `[2^i]G` for `i = 0..255`, affine (generator validated on curve, so no poles). -/
-def doublings (g : Pt) : Array Pt := Id.run do
-  let mut out : Array Pt := #[g]
-  let mut cur := g
-  for _ in [1:256] do
-    cur := edAddOrId cur cur
-    out := out.push cur
-  pure out
+/-- `[2^i]G` for `i = 0..n−1`, affine (generator validated on curve, so no poles). -/
+def doublings : Nat → Pt → List Pt
+  | 0, _ => []
+  | n+1, p => p :: doublings n (edAddOrId p p)
+
+/-- host-side accumulators of the signed-digit ladder: given the digits most-significant first
+    with their point multiples, returns per round `(scalarAcc, pointAcc, xyAlpha)` *before* the
+    round, and the final `(scalarAcc, pointAcc)`. -/
+def fixedAccs : List (Int × Pt) → Nat → Pt → List (Nat × Pt × Nat) × (Nat × Pt)
+  | [], sa, pa => ([], (sa, pa))
+  | (e, m) :: rest, sa, pa =>
+    let (sAdd, pAdd) : Nat × Pt :=
+      if e == 0 then (0, Pt.id) else if e == 1 then (1 % R, m) else (R - 1, edNeg m)
+    let (rows, fin) := fixedAccs rest (fadd (fmul 2 sa) sAdd) (edAddOrId pa pAdd)
+    ((sa, pa, fmul pAdd.1 pAdd.2) :: rows, fin)
 
 /-- `append_fixed_base_signed_digits(jubjub, generator, digits)`; `digits` little endian (as wnaf). -/
-def appendFixedBaseSignedDigits (jubjub : Nat) (gen : Pt) (digits : Array Int) :
+def appendFixedBaseSignedDigits (jubjub : Nat) (gen : Pt) (digits : List Int) :
     CM (Except CErr Pt) := do
   assertCanonicalJubjubScalar jubjub
   if digits.any (fun d => d != 0 && d != 1 && d != -1) then
     pure (.error .unsupportedWnaf)
   else
-    let mults := (doublings gen).reverse      -- mults[i] = [2^(255−i)]G
-    -- host accumulators
-    let (scalarAcc, pointAcc, xyAlphas) := Id.run do
-      let mut sa : Array Nat := #[0]
-      let mut pa : Array Pt := #[Pt.id]
-      let mut xs : Array Nat := #[]
-      for i in [0:256] do
-        let e := digits.getD (255 - i) 0
-        let m := mults.getD i Pt.id
-        let (sAdd, pAdd) : Nat × Pt :=
-          if e == 0 then (0, Pt.id) else if e == 1 then (1 % R, m) else (R - 1, edNeg m)
-        sa := sa.push (fadd (fmul 2 (sa.getD i 0)) sAdd)
-        pa := pa.push (edAddOrId (pa.getD i Pt.id) pAdd)
-        xs := xs.push (fmul pAdd.1 pAdd.2)
-      pure (sa, pa, xs)
-    let mut leading := ZERO
-    for i in [0:256] do
-      let accX ← appendWitness (pointAcc.getD i Pt.id).1
-      let accY ← appendWitness (pointAcc.getD i Pt.id).2
-      let accBit ← appendWitness (scalarAcc.getD i 0)
-      if i == FIXED_BASE_LEADING_ZERO_ROUNDS then leading := accBit
-      if i == 0 then
-        assertEqualConstant accX 0 none
-        assertEqualConstant accY 1 none
-        assertEqualConstant accBit 0 none
-      let m := mults.getD i Pt.id
-      let xyAlpha ← appendWitness (xyAlphas.getD i 0)
-      appendCustomGate (Constraint.groupAddFixedBase
-        { ql := m.1, qr := m.2, qc := fmul m.1 m.2, a := accX, b := accY, c := xyAlpha, d := accBit })
-    let accX ← appendWitness (pointAcc.getD 256 Pt.id).1
-    let accY ← appendWitness (pointAcc.getD 256 Pt.id).2
-    let last ← appendWitness (scalarAcc.getD 256 0)
-    appendGate { a := accX, b := accY, d := last }
-    assertEqualConstant leading 0 none
-    assertEqual last jubjub
-    pure (.ok (accX, accY))
+    let rounds := Generated.FIXED_BASE_SIGNED_DIGIT_ROUNDS
+    let mults := (doublings rounds gen).reverse      -- mults[i] = [2^(rounds−1−i)]G
+    let (rows, fin) := fixedAccs (digits.reverse.zip mults) 0 Pt.id
+    let base := (← get).wit.size
+    -- witnesses: per round acc_x, acc_y, accumulated_bit, xy_alpha; then the final three
+    appendWitnesses (rows.flatMap (fun (sa, pa, xy) => [pa.1, pa.2, sa, xy]) ++ [fin.2.1, fin.2.2, fin.1])
+    let accX (i : Nat) := base + 4 * i
+    let accY (i : Nat) := base + 4 * i + 1
+    let accBit (i : Nat) := base + 4 * i + 2
+    let xyAlpha (i : Nat) := base + 4 * i + 3
+    -- round 0 is pinned to (identity, 0)
+    assertEqualConstant (accX 0) 0 none
+    assertEqualConstant (accY 0) 1 none
+    assertEqualConstant (accBit 0) 0 none
+    appendCustomGates ((mults.zipIdx).map fun (m, i) => Constraint.groupAddFixedBase
+        { ql := m.1, qr := m.2, qc := fmul m.1 m.2, a := accX i, b := accY i, c := xyAlpha i, d := accBit i })
+    let n := rows.length
+    -- closing row carries the final accumulators on wires a, b, d
+    appendGate { a := base + 4 * n, b := base + 4 * n + 1, d := base + 4 * n + 2 }
+    assertEqualConstant (accBit FIXED_BASE_LEADING_ZERO_ROUNDS) 0 none
+    assertEqual (base + 4 * n + 2) jubjub
+    pure (.ok (base + 4 * n, base + 4 * n + 1))
 
 /-- `component_mul_generator` -/
 def componentMulGenerator (jubjub : Nat) (gen : Ext) : CM (Except CErr Pt) := do
@@ -453,7 +459,7 @@ def componentMulGenerator (jubjub : Nat) (gen : Ext) : CM (Except CErr Pt) := do
     if s ≥ RJ then pure (.error .scalarMalformed)
     else
       let g := (gen.toAffine?).getD Pt.id
-      appendFixedBaseSignedDigits jubjub g (wnaf2 s).toArray
+      appendFixedBaseSignedDigits jubjub g (wnaf2 s)
 
 end Composer
 end Plonk
